@@ -50,10 +50,12 @@ func VerifC09_CleanKilled() {
 		verifCover("completed")
 	}
 	// invariant of local storage after the (possibly killed) run
+	present := 0
 	if stored, ok := verifFSRead(objPath); ok {
+		present = 1
 		verifAssert(stored == in, "an object present in local storage has exactly the content that hashes to its name")
 	}
-	verifAssert(verifFSCount(root+"/lfs/objects/") <= 2, "only the object itself appears under lfs/objects")
+	verifAssert(verifFSCount(root+"/lfs/objects/") == 1+present, "only the object itself appears under lfs/objects")
 	if !crashed {
 		verifAssert(verifFSCount(root+"/lfs/tmp/") == 1, "an uninterrupted run leaves no temporary file")
 	}
